@@ -117,6 +117,7 @@ pub struct Ctx {
     pub excluded_by_construction: u64,
     pub extra: Map<String, Value>,
     pub exhaustive: Option<bool>,
+    pub shrink_iters: u32,
     known_reported: HashSet<String>,
 }
 
@@ -207,6 +208,7 @@ impl Ctx {
             excluded_by_construction: 0,
             extra: Map::new(),
             exhaustive: None,
+            shrink_iters: 20_000,
             known_reported: HashSet::new(),
         }
     }
@@ -267,6 +269,7 @@ impl Ctx {
         let stop = Arc::new(AtomicBool::new(false));
         let known: Arc<Vec<String>> = Arc::new(self.known.iter().map(|k| k.sig.clone()).collect());
         let legname = leg.to_string();
+        let shrink_iters = self.shrink_iters;
         let mut handles = vec![];
         for w in 0..workers {
             let eval = eval.clone();
@@ -284,7 +287,7 @@ impl Ctx {
                     cfg.failure_persistence = None;
                     cfg.rng_algorithm = RngAlgorithm::ChaCha;
                     cfg.rng_seed = RngSeed::Fixed(seed);
-                    cfg.max_shrink_iters = 20_000;
+                    cfg.max_shrink_iters = shrink_iters;
                     cfg.max_global_rejects = 1_000_000;
                     cfg.verbose = 0;
                     cfg.source_file = None;
@@ -326,7 +329,8 @@ impl Ctx {
                                     let mut s = stats.lock().unwrap();
                                     s.evaluations += 1;
                                     if s.inconclusive.len() < 20 {
-                                        s.inconclusive.push(why);
+                                        let cj: String = serde_json::to_string(&case).unwrap_or_default().chars().take(600).collect();
+                                        s.inconclusive.push(format!("{why} case={cj}"));
                                     }
                                 }
                                 Ok(())
@@ -344,9 +348,12 @@ impl Ctx {
                                 }
                                 if counting {
                                     stats.lock().unwrap().evaluations += 1;
+                                    // only the first worker that fails shrinks and reports
+                                    if stop.swap(true, Ordering::SeqCst) {
+                                        return Ok(());
+                                    }
                                 }
                                 failed.store(true, Ordering::Relaxed);
-                                stop.store(true, Ordering::Relaxed);
                                 *last_fail.lock().unwrap() = Some((clause.clone(), detail.clone()));
                                 Err(TestCaseError::fail(format!("{clause}")))
                             }
